@@ -76,13 +76,23 @@ def cli_case(rng, idx):
                 x.data['morph'] = rng.choice(["Nom.Sg.Masc.Pos", "Comp.Nom.Pl.Masc", "Comp.Nom.Sg.Masc.x"])     # 15, 16, 18 characters
         s = io.StringIO()
         treeoutput.export(t, s)
-        sents.append((s.getvalue(), len(trees.terminals(t))))
+        words = [x.data['word'] for x in trees.terminals(t)]
+        nonp = sum(1 for w in words if w not in (",", "."))
+        # token count after punctuation_delete (a sentence of punctuation only is left as it is)
+        sents.append((s.getvalue(), len(words), nonp if nonp > 0 else len(words)))
     fmt = rng.choice(FORMATS + ["tigerxml"])
     use_filter = rng.random() < 0.5
     fval = rng.choice([0, 0, 0, 1, 2, 3, 4, 6])
     fop = rng.choice(["lt", "lt", "gt", "eq"])
     dropped = {"lt": lambda n_: n_ < fval, "gt": lambda n_: n_ > fval, "eq": lambda n_: n_ == fval}[fop]
-    kept = [x for x in sents if not (use_filter and dropped(x[1]))]
+    # a transformation that changes the number of tokens BEFORE the filter: the filter sees the tree as it is then
+    pre_delete = use_filter and rng.random() < 0.5
+    differing = [x for x in sents if x[1] != x[2]]
+    if pre_delete and differing and rng.random() < 0.7:
+        # a threshold that one sentence crosses BECAUSE of the deletion
+        fop, fval = "lt", rng.choice(differing)[1]
+        dropped = lambda n_: n_ < fval
+    kept = [x for x in sents if not (use_filter and dropped(x[2] if pre_delete else x[1]))]
     n = len(kept)
     natoms = rng.randint(1, 3)
     spec = "_".join(rng.choice(ATOMS) for _ in range(natoms))
@@ -93,7 +103,7 @@ def cli_case(rng, idx):
         spec = "_".join(parts)
     with cli.Scratch() as sc:
         src = sc.write("src.export", "".join(x[0] for x in sents))
-        extra = ["--trans", "filter_by_length", "--params", "filteroperator:" + fop, "filtervalue:%d" % fval] if use_filter else []
+        extra = ["--trans"] + (["punctuation_delete"] if pre_delete else []) + ["filter_by_length", "--params", "filteroperator:" + fop, "filtervalue:%d" % fval] + (["quiet"] if pre_delete else []) if use_filter else []
         # writer / reader options must reach the parts exactly as they reach the unsplit output
         dopts = {"export": [["export_four"], ["gf"], []], "brackets": [["gf"], ["brackets_emptyroot"], ["gf", "gf_separator:#"], []],
                  "discobrackets": [["gf"], []], "tigerxml": [[]], "terminals": [["terminals_pos"], []]}[fmt]
@@ -152,6 +162,8 @@ def cli_case(rng, idx):
         else:
             dod[x] = True
     calls = tx_call("filter_by_length", {"filteroperator": fop, "filtervalue": fval}) if use_filter else ""
+    if pre_delete:
+        calls = tx_call("punctuation_delete", {}) + ";" + calls
     lines.append(Line("corr", "convert_split", ["export", "continuous" if "continuous" in extra else "-", fmt, proto.enc_opts(dod),
                                                 proto.enc_s(decl) if decl is not None else "n", calls, proto.enc_s(spec),
                                                 proto.enc_s("".join(x[0] for x in sents))], parts_txt))
@@ -178,7 +190,7 @@ def gen(seed, tier, scale):
         for size in (0, 3, 100):
             yield idx, spec_case(spec, size, "malformed")
             idx += 1
-    ncli = (48 if tier == "quick" else 600) * scale
+    ncli = (72 if tier == "quick" else 600) * scale
     rngs = [(case_rng(seed, ID, idx + i), idx + i) for i in range(ncli)]
     for i, c in enumerate(cli.pmap(lambda a: cli_case(a[0], a[1]), rngs)):
         yield idx + i, c
